@@ -261,10 +261,15 @@ func (s *Spec) Step(ctx context.Context, st *State, pending interface{}, c *Cont
 	}
 
 	// If the current node has an action, execute it.
+	//
+	// We work on a copy of the given bindings: the caller's state
+	// must not change when an action fails (we note the error in the
+	// bindings below) or when a native action writes to the map it
+	// is given.
 	var (
 		err    error
 		e      *Execution
-		bs     = st.Bs
+		bs     = st.Bs.Copy()
 		stride = NewStride()
 	)
 	stride.From = st.Copy()
@@ -658,7 +663,7 @@ func (s *Spec) Walk(ctx context.Context, st *State, pendings []interface{}, c *C
 			if st.NodeName == "error" {
 				// We're already at an error.
 			} else {
-				errorBs, _ := st.Bs.Extendm("error", err.Error(),
+				errorBs, _ := st.Bs.Copy().Extendm("error", err.Error(),
 					"lastNode", st.NodeName,
 					"lastBindings", st.Bs.Copy())
 				stride.To = &State{
